@@ -476,9 +476,21 @@ void DOMAttrMapImpl::setNamedItemNSFast(DOMNode* arg)
         i = findNamePoint(arg->getNodeName());
 
         if (i < 0)
-          i = -1 - i;
-
-        fNodes->insertElementAt(arg,i);
+        {
+            i = -1 - i;
+            fNodes->insertElementAt(arg,i);
+        }
+        else
+        {
+            //  An attribute with this qualified name is there already: the copy
+            //  of a DTD default inherited from the doctype, which was created
+            //  before the prefix could be resolved. An element cannot have two
+            //  attributes with one qualified name, so the new one replaces it.
+            DOMNode* previous = fNodes->elementAt(i);
+            castToNodeImpl(previous)->fOwnerNode = fOwnerNode->getOwnerDocument();
+            castToNodeImpl(previous)->isOwned(false);
+            fNodes->setElementAt(arg,i);
+        }
     }
 }
 
